@@ -748,3 +748,81 @@ def check_dstore_keys(ctx, lib, rule):
             shape = "param" if k[0] == "param" else "extension-key" if "extension" in str(k) and k[0] == "proj" else "list-item" if k[0] == "item" else "other"
             ctx.expect(exc is not None and exc[0] == shape, rule, key, site_of(fn), "the domain store is looked up with %s, which is not the walked representative of the variable (an aliased variable's domain lives under its representative)" % show(k, maxdepth=4)[:120])
     ctx.floor(rule, n, 15, "domain-store lookups")
+
+
+# constraint type (last path segment) -> term-typed fields deliberately not listed as operands
+OPERAND_EXCEPTIONS = {
+    "DistinctFd2Constraint": {"y": "y is the still-unbound sub-list of u (moved between y and n by run); u already lists every variable"},
+}
+
+
+def check_operands(ctx, lib, rule):
+    """`Constraint::operands` is what `LResult::constraints` / `ConstraintStore::relevant` (which constraints an
+    answer reports for a variable) and `State::verify_all_bound` (which variables need a domain) read.  Each
+    implementation must list *every* term-typed field of its constraint, each one as itself - a copy-paste that
+    lists `u` twice and `v` never still type-checks.  The substitution-shaped disequality delegates to
+    `SMap::operands`, whose table is: every key; every value that is itself a variable."""
+    impls = [p for p in lib.fns if p.endswith(" as crate::state::constraint::Constraint>::operands") and "hir" in lib.fns[p] and not lib.fns[p].get("in_test_mod")]
+    ev = sym.Evaluator(lib, inline=lambda p, f: False)
+    S = ("param", 0, "self")
+    n = 0
+    for p in sorted(impls):
+        fn = lib.fns[p]
+        ty_path = p[1:].split(" as ")[0]
+        ty = ty_path.split("::")[-1]
+        adt = lib.adts.get(ty_path)
+        ctx.fn_seen(p)
+        if not ctx.expect(adt is not None and len(adt.get("variants", [])) == 1, rule, "%s|type" % ty, site_of(fn), "cannot find the struct of %s" % ty):
+            continue
+        n += 1
+        fields = adt["variants"][0]["fields"]
+        termf = [f["name"] for f in fields if "lterm::LTerm" in f["ty"] or (f.get("tys") or {}).get("adt") == "crate::lterm::LTerm"]
+        smapf = [f["name"] for f in fields if "SMap" in f["ty"]]
+        want = [f for f in termf if f not in OPERAND_EXCEPTIONS.get(ty, {})]
+        t = ev.fn_term(fn)
+        eff, r = tables.flatten(t)
+        if smapf and not termf:
+            ok = r[0] == "call" and suffix_match(r[1], "SMap::operands") and r[2] == (("field", S, smapf[0]),)
+            ctx.expect(ok and not eff, rule, "%s|delegates-to-substitution" % ty, site_of(fn), "a substitution-shaped constraint lists the operands of its substitution; found %s" % show(t, maxdepth=5)[:160])
+            continue
+        listed = [s for s in sym.subterms(r) if s[0] == "field" and s[1] == S]
+        # every occurrence counts (a field listed twice in place of another is the slip this rule is for)
+        occ = []
+
+        def walk(x):
+            if isinstance(x, tuple):
+                if x and x[0] == "field" and len(x) > 2 and x[1] == S:
+                    occ.append(x[2])
+                    return
+                for y in x:
+                    walk(y)
+
+        walk(r)
+        ok = sorted(occ) == sorted(want) and not [e for e in eff if not tables.harmless_effect(e)]
+        ctx.expect(ok, rule, "%s|lists=%s" % (ty, ",".join(want)), site_of(fn), "operands() must list each term field of the constraint exactly once (%s); found %s" % (want, occ))
+    ctx.floor(rule, n, 8, "Constraint::operands implementations")
+    for name in ("operands", "get_vars"):
+        fn = lib.fn("crate::state::substitution::SMap::%s" % name)
+        if not ctx.expect(fn is not None, rule, "SMap::%s|anchor" % name, "src/state/substitution.rs", "SMap::%s not found" % name):
+            continue
+        ctx.fn_seen(fn["npath"])
+        t = ev.fn_term(fn)
+        eff, r = tables.flatten(t)
+        fors = [e for e in eff if e[0] == "for"]
+        ok = len(fors) == 1
+        why = "expected one loop over the pairs"
+        if ok:
+            f = fors[0]
+            src, chain = streams.iter_chain(f[1])
+            item = ("item", f[1])
+            K, Vv = ("proj", item, "tuple", 0), ("proj", item, "tuple", 1)
+            ok = unify(pat("@0.0"), src) is not None and all(m in streams.ONE_TO_ONE for m, _ in chain)
+            why = "the loop must visit every pair of the substitution"
+            if ok:
+                occs = [(s, lits) for s, lits in tables.occurrences_with_guards(f[3]) if s[0] == "call" and suffix_match(s[1], "push")]
+                ks = [(s, l) for s, l in occs if s[2][1] == K]
+                vs = [(s, l) for s, l in occs if s[2][1] == Vv]
+                other = [s for s, l in occs if s[2][1] not in (K, Vv)]
+                ok = len(ks) == 1 and not ks[0][1] and len(vs) == 1 and len(vs[0][1]) == 1 and vs[0][1][0][1] is True and vs[0][1][0][0] == ("call", "crate::lterm::LTerm::is_var", (Vv,)) and not other
+                why = "each key is listed unconditionally, each value exactly when it is a variable, nothing else; found pushes %s" % [(show(s[2][1], maxdepth=3), [(show(l[0], maxdepth=3), l[1]) for l in ll]) for s, ll in occs]
+        ctx.expect(ok, rule, "SMap::%s|keys-and-variable-values" % name, site_of(fn), why)
